@@ -640,15 +640,15 @@ def symbolic_comp(E, node, fr, sc, kind):
     E.next_decision = nofork
     pushed = False
     try:
-        E.solver.push()
+        E.push()
         pushed = True
-        E.solver.add(z3.And(i >= 0, i < as_int_term(n)))
+        E.scoped_add(z3.And(i >= 0, i < as_int_term(n)))
         if kind == "dict":
             raise Unsupported("dict comprehension over symbolic data")
         val = E.ev(node.elt, sub)
     finally:
         if pushed:
-            E.solver.pop()
+            E.pop()
         E.next_decision = saved
     if isinstance(val, (bool, SBool)):
         return QuantIter(i, as_int_term(n), as_bool_term(val))
